@@ -129,8 +129,8 @@ def caughtOut (c : Caught) : String := c.name ++ "," ++ "+".intercalate c.instan
 def join (ds : List String) : String := if ds.isEmpty then "-" else ",".intercalate ds
 
 /-- deviation regions of a trace request: decidable predicates over the request only -/
-def traceDev (files : List FileEnt) (sc : Scenario) (k : ErrKind) : String :=
-  join (Spec.traceDevs files sc ++ (if (errTable k).2 then [] else ["msg_empty"]))
+def traceDev (sc : Scenario) (k : ErrKind) : String :=
+  join (Spec.traceDevs sc ++ (if (errTable k).2 then [] else ["msg_empty"]))
 
 def strOut (s : String) : String := "s:" ++ bytesOut (s.toUTF8.toList.map (·.toNat))
 def str? (t : String) : Option String :=
@@ -149,8 +149,7 @@ def handle (ws : List String) : String :=
   match ws with
   | ["pos", s, i] => match src? s, int? i with
     | some src, some idx =>
-      reply (posOut (filePosition src 1 idx)) (posOut (Spec.positionAt src (idx - 1)))
-        (if Spec.cleanAt src (idx - 1) then "-" else "position_cr")
+      reply (posOut (filePosition src 1 idx)) (posOut (Spec.positionAt src (idx - 1))) "-"
     | _, _ => "bad-op"
   | ["ppos", s, o] => match src? s, o.toNat? with
     | some src, some off =>
@@ -171,7 +170,7 @@ def handle (ws : List String) : String :=
       let (mn, mm) := errTable kind
       let m := mn ++ "|" ++ flag mm ++ "|" ++ framesOut (trace files limit sc)
       let sp := Spec.errClass kind ++ "|" ++ flag true ++ "|" ++ framesOut (Spec.trace files limit sc)
-      reply m sp (traceDev files sc kind)
+      reply m sp (traceDev sc kind)
     | _, _, _, _, _, _, _ => "bad-op"
   | ["cls", k, _variant] => match kind? k with
     | some kind => reply (caughtOut (caught kind)) (caughtOut (Spec.caught kind)) (if (errTable kind).2 then "-" else "msg_empty")
